@@ -43,8 +43,8 @@ def layers(ty):
     for off in range(n):
         left, right = ty[:off], ty[off + 1:]
         if ty[off:off + 1] == qubit:
-            for g in (gates.H, gates.X, gates.Y, gates.S, gates.T, Rx(0.3), Rz(0.77), Measure(), Discard(), Bra(0), Bra(1),
-                      Measure(destructive=False)):
+            for g in (gates.H, gates.X, gates.Y, gates.S, gates.T, gates.S.dagger(), gates.T.dagger(), Rx(0.3), Rz(0.77),
+                      Measure(), Discard(), Bra(0), Bra(1), Measure(destructive=False)):
                 out.append(Id(left) @ g @ Id(right))
         else:
             for g in (NOT, Discard(bit)):
@@ -200,6 +200,9 @@ def tket_circuits(depth):
             yield combo, c
 
 
+SUPPORTED_TKET_OPS = {'H', 'X', 'Y', 'Z', 'S', 'T', 'Rx', 'Rz', 'CX', 'CZ', 'SWAP', 'CRz', 'Measure'}
+
+
 def check_import(rep, combo, tkc):
     r = 'pytket circuit %r' % (combo,)
     rep.case(r)
@@ -207,6 +210,10 @@ def check_import(rep, combo, tkc):
     try:
         d = tk.from_tk(tkc)
     except NotImplementedError:
+        ops = {c.op.type.name for c in tkc.get_commands()}
+        if ops <= SUPPORTED_TKET_OPS:
+            rep.fail('C13:import.refused', 'from_tk refused (NotImplementedError) a circuit over the supported operations %s'
+                     % sorted(ops), r)
         return
     except Exception as e:
         rep.fail('C13:from_tk.raises', 'from_tk raised %s: %s' % (type(e).__name__, e), r)
@@ -299,6 +306,14 @@ def run(tier, seed=0, shard=(0, 1)):
             if c is None or idx % shard[1] != shard[0]:
                 continue
             check(rep, c)
+    # post-selection next to measured bits, then bit swaps: the post-selected register must keep its value
+    pre = Ket(0, 0, 0) >> gates.X @ gates.H @ Rx(0.3) >> gates.CX @ Id(1)
+    for sel in (Bra(1) @ Measure(2), Measure() @ Bra(0) @ Measure(), Measure(2) @ Bra(0)):
+        for tail in (circuit.Swap(bit, bit), Id(bit ** 2), circuit.Swap(bit, bit) >> NOT @ Id(bit)):
+            idx += 1
+            if idx % shard[1] != shard[0]:
+                continue
+            check(rep, pre >> sel >> tail)
     # scalars of both kinds at both ends: amplitudes (recorded as their squared modulus) and weights (recorded as is,
     # e.g. the negative weights of parameter-shift gradients)
     for sc in (scalar(0.5, is_mixed=True), scalar(-1, is_mixed=True), scalar(2.5, is_mixed=True), scalar(0.5j), scalar(-2)):
